@@ -32,8 +32,8 @@ trap 'git -C /repo worktree remove --force $W >/dev/null 2>&1' EXIT
 git -C $W apply $diff || { echo "$label: PATCH DOES NOT APPLY"; exit 2; }
 bad=0
 for p in $props; do
-  out=$(VERIF_REPO=$W VERIF_EVIDENCE_DIR=/tmp/verif-benign-evidence VERIF_REPLAY_DIR=/tmp/verif-benign-replays-$$ /verif/govc/bin/govc check -p $p -tier quick 2>&1); rc=$?
+  out=$(VERIF_REPO=$W VERIF_EVIDENCE_DIR=/tmp/verif-benign-evidence-$$ VERIF_REPLAY_DIR=/tmp/verif-benign-replays-$$ /verif/govc/bin/govc check -p $p -tier quick 2>&1); rc=$?
   if [ $rc -ne 0 ]; then bad=1; echo "FALSE-ALARM $label $p: $(echo "$out" | grep -m2 '^FAILED OBLIGATION' | cut -c1-220 | tr '\n' ' ')"; else echo "ok $label $p"; fi
 done
-rm -rf /tmp/verif-benign-replays-$$
+rm -rf /tmp/verif-benign-replays-$$ /tmp/verif-benign-evidence-$$
 exit $bad
